@@ -18,7 +18,7 @@ pub fn verif_dir() -> String {
     std::env::var("VERIF_DIR").unwrap_or_else(|_| "/verif".to_string())
 }
 pub const DEFAULT_SEED: u64 = 20260921;
-const WATCHDOG_S: u64 = 300;
+const WATCHDOG_S: u64 = 900;
 const MINIMISE_BUDGET_S: u64 = 30;
 const MAX_TRACKED_FPS: usize = 150_000;
 
@@ -660,9 +660,15 @@ pub fn parent<S: Scenario>(o: &Opts) -> i32 {
             exec_in_child(S::ID, &case_v, 120).is_none()
         };
         if !confirmed {
-            // could not reproduce in isolation: harness-level flake, not an alarm
-            eprintln!("HARNESS-WARNING: worker died at run {r} ({why}) but the run passes in a fresh process");
-            harness_problem = true;
+            // could not reproduce in isolation: not an alarm. A watchdog kill of a run that
+            // completes when re-executed alone is what an overloaded machine looks like (exit 0);
+            // a worker that died by itself and cannot be reproduced is a harness problem (exit 2).
+            if why.starts_with("no progress") {
+                println!("note: run {r} was stopped by the {WATCHDOG_S}s watchdog but completes normally in a fresh process (machine overloaded?)");
+            } else {
+                eprintln!("HARNESS-WARNING: worker died at run {r} ({why}) but the run passes in a fresh process");
+                harness_problem = true;
+            }
             continue;
         }
         let v = crash_violation(why);
